@@ -25,7 +25,7 @@ from common import zlit, qlit, natlit, lst, tup, coq_bad_indices, CoqError
 
 PROP = "C02"
 PROPERTY_FILE = "Properties/C02.v"
-GEN_DEPS = ["GenPairing"]
+GEN_DEPS = ["GenPairing", "GenTieBst", "GenTieAlias"]
 RULE = ("probability vectors: 8 dyadic classes (uniform, one dominant, many zeros, ties, geometric, k/256 multiples, tiny entries, "
         "random) of length 1..400, non-dyadic vectors for the oracle; uniforms: breakpoints of the implementation's tables -/+ one "
         "step, 0, 1-2^-53, random dyadics; chains: dyadic step measures on uniform grids through MarkovChainProcess for every "
@@ -35,7 +35,7 @@ RULE = ("probability vectors: 8 dyadic classes (uniform, one dominant, many zero
         "32-bit words for TABLE incl. alias thresholds; exhaustion path of INVERSION: InversionMethod built directly on dyadic probability "
         "tables whose sum is 1 - 2^-k (k = 52, 40, 12, 4) or 1, uniforms 1 - 2^-53, 1 - 2^-52, random in (sum, 1), 1, 1.25 with EVERY position of "
         "the frontier deque scripted into np.random.choice, and factory chains with intensity 3, 5, 7 (rounded probabilities); every "
-        "direct sampler is built from ONE float64 ndarray that must stay bit-identical. non-trivial = distinct (sampler, vector/chain, uniform) with >= 3 states")
+        "direct sampler is built from ONE float64 ndarray that must stay bit-identical; wave 6: 2-d INVERSION histories with EVERY draw given a scripted position of np.random.choice in the frontier deque (same position in both orders), 3-d density-table chains (c01_table3.TableN, arbitrary dyadic cell masses in all octants, grids [-1,1]^3, [-1,2]^3, [-2,2]^3; thorough: up to [-3,3]^3) for the n-d tree. non-trivial = distinct (sampler, vector/chain, uniform) with >= 3 states")
 MODELLED = [
     "numpy arrays / collections.deque / Python lists as Coq lists (alias deques right-to-left); np.uint(ku) as floor; int(x) as truncation; np.cumsum as a running sum; np.searchsorted(side=left) on a non-decreasing array as the number of leading entries < v",
     "list.sort(key, reverse=True) as a stable decreasing insertion sort; bisect.bisect_left by its binary-search loop",
@@ -45,13 +45,16 @@ MODELLED = [
     "InversionMethod exhaustion path (wave 5): Model/InversionFrontier.v resolves the symbol Frontier of Model/Inversion.v: StatesManager._sample_frontier_state_increment = project(frontier_states_indices[c]) with the position c picked by np.random.choice as an EXPLICIT input (consumed only on exhaustion); the 1-d deque and max_frontier_indices are Model/Domain.v's dom_1d / dom_maxf (C14) on z1d_pair of Gen/GenPairing.v and are compared with the implementation's on every inversion case; np.random.choice(deque) is modelled as indexing the deque (the harness replaces it by a scripted position; its own distribution over positions -- uniform -- is numpy's, not verified)",
     "InversionMethod: Model/Inversion.v over an abstract enumeration; 1-d: z1d_project (C14) with the implementation's max_frontier_indices fed as data and inside = in the grid; 2-d: zd2_project szudzik, inside = in the box, probability table as data",
     "the factory: create_vec_jump_matrix and the `states` map in Model/Factory.v (tied exactly)",
+    "wave 6 -- REGENERATED from the source and linked by theorem: BinarySearchTree.sample_with_u (the `while ptr <= self.K` descent) is translated on every run by the TIE translator (harness/specs/TIE.py + harness/py2coq_loops.py -> Gen/GenTieBst.v, in GEN_DEPS: a source outside the subset breaks the check) and C02_gen_bst_sample_with_u_is_model (Proofs/Tie_Bst.v) proves the generated definition equal to the hand model bst_sample for every K, array and uniform; C02_gen_bst_law restates the law on the generated descent. Likewise AliasMethod._draw_with_u (Gen/GenTieAlias.v, np.uint read as Qfloor = numpy's truncation for K u >= 0; Python ints Z vs nat in the hand model): C02_gen_alias_draw_with_u_is_model (Proofs/Tie_Alias.v, for u >= 0) and C02_gen_alias_law. All other sampler kernels (constructors, Huffman, table, inversion, adapted trees) remain hand models tied by the correspondence",
+    "wave 6 -- n-d INVERSION of the factory with the frontier deque inside the model: Model/InversionFrontierNd.v (states = lists of d integers, enumeration sznd_project = PairingToZd over (nested) Szudzik, frnd / maxfnd = the deque and max_frontier_indices computed by Model/Domain.v dom_nd / dom_maxf with Boundary(), outsidend = outside the box); tied exactly on 2-d chains: the implementation's deque IN ORDER, max_frontier_indices, every draw with a scripted position of np.random.choice, whether np.random.choice was called, the final cumulative sums and the StatesManager state. d >= 3 (the factory switches to Rosenberg-Strong there) stays on the oracle",
+    "wave 6 -- BinarySearchTreeAdapted in d = 3: Model/BstAdaptedNd.v tied exactly on 3-d density-table chains (harness/c01_table3.py TableN + its Levy copula through LevyCopulaModel._mass_3d): 26 buckets (0, 6 or 12 cached depending on the shape), bisection cycling over 3 axes, bucket lists and cached flags compared too",
     "float arithmetic: theorems are over Q with exact-sum hypotheses (sum p = 1, u < sum p) that float vectors meet only up to rounding (e.g. sums 0.9999999999999998); exact agreement is checked on dyadic inputs where every float operation of the samplers is exact, incl. vectors whose sum is deliberately off 1; non-dyadic vectors and intensities by the oracle with tolerance 1e-9",
     "Qred in Model/Table.v (reduction to lowest terms, Qred x == x) only keeps vm_compute fast",
 ]
 ASSUMPTIONS = [
     "probability vector entries are >= 0 (zeros and ties allowed), length >= 1; uniforms 0 <= u < sum p (alias, table: sum p = 1)",
     "C02_inversion_admissible: unconditional in the enumeration (any inadmissible indices, any number of restarts; StatesManager half = C14 sm_step_protocol on the tree repaired by a073fcb); prob >= 0 (the factory clips with max(.,0)), _max_storage >= 1, F >= 0. In C02_inversion_admissible the random frontier state drawn on exhaustion (u above the sum) is the symbol Frontier; C02_inversion_frontier_law resolves it",
-    "C02_inversion_frontier_law: same hypotheses, ANY deque fr and any position c; part (3) needs sigma <= 1 (sum of the admissible probabilities: 1 in exact arithmetic, below 1 after rounding); part (5) needs every index of the deque admissible -- proved for the 1-d factory grid (C02_inversion_frontier_1d, 0 < L, 0 < R); for n-d grids / a custom Domain (RectangleBoundary: the deque can hold the index of the origin, audit D13) it is NOT proved -- the factory hard-codes Boundary(); the n-d deque of dom_nd is not tied to the theorem (2-d/3-d: oracle accepts any state of the deque)",
+    "C02_inversion_frontier_law: same hypotheses, ANY deque fr and any position c; part (3) needs sigma <= 1 (sum of the admissible probabilities: 1 in exact arithmetic, below 1 after rounding); part (5) needs every index of the deque admissible -- proved for the 1-d factory grid (C02_inversion_frontier_1d, 0 < L, 0 < R); and (wave 6) for the n-d factory grid with nested Szudzik (C02_inversion_frontier_nd: all_sizes <> [], sizes > 0, 0 < o < last_size - 1, Boundary()); for a custom Domain (RectangleBoundary: the deque can hold the index of the origin, audit D13 = F-C14-8) it is NOT proved -- the factory hard-codes Boundary(); the Rosenberg-Strong enumeration the factory uses for d >= 3 has the C14 half (C14_frontier_draw_factory) but is not composed with the C02 law (3-d: oracle)",
     "C02_bstadapted1d_law: mass additive and non-negative on ordered intervals (closed forms: C09), cell boundaries ordered (C13), left-tail mass = mass of the left axis cells (truncation, C01), lambda > 0, a point on each side of the origin; C02_bstadapted1d_cache_history_free: mass is a function of the values of its arguments, eviction only drops entries",
     "C02_bstadaptednd_*: the box mass bm is non-negative and additive under the split of one axis (C12 for the copula rectangle mass), coordinates in [0, B)",
     "right-closed samplers (INVERSION, BSTADAPTED 1-d/n-d): 'never a zero-probability state' is proved for u > 0 only; u = 0 is the recorded finding F-C02-6 (C02_*_zero_uniform_refuted)",
@@ -72,11 +75,15 @@ THEOREM_NOTES = {
     "C02_bstadaptednd_law": "full on the REAL bucket list buckets d n o of _pre_computation: cached-axis branch (searchsorted (axis_cum b) = locate_r (axis_segs b), with the min(., len-1) repair) and bisection branch composed with the bucket stage; product buckets partition the non-origin cells (buckets_partition): every non-origin cell exactly once with length bm(cell), never the origin, never outside the grid. Example C02_bstadaptednd_nonvacuous: buckets 2 5 2 has 8 buckets, 4 of them cached",
     "C02_inversion_frontier_law": "full (wave 5): every enumeration, deque, _max_storage >= 1, reachable state (any history), u, c: output = admissible state of locate_r, or project(fr[c]) iff u > sigma (np.random.choice consumed iff u > sigma; never for u <= 1 when sigma == 1); for sigma <= 1 and each c the sampler is the right-closed step function of adm_segs' ++ [(1 - sigma, fr[c])] (total 1) on (0,1]; summed over the positions c the index i gets len(fr) * p_i + (1 - sigma) * multiplicity of i in the deque (uniformity of np.random.choice over positions is numpy's, outside the model); admissible deque => admissible output",
     "C02_inversion_frontier_1d": "full: for the factory's 1-d grid (0 < L, 0 < R) the deque dom_1d is [pair R; pair(-L)], both admissible indices <= max_frontier_indices, the frontier states are the two end points: in the grid, never the origin (uses C14 z1d_pair_spec)",
+    "C02_gen_bst_sample_with_u_is_model / C02_gen_bst_law": "wave 6 (TIE): the definition py2coq regenerates from binarysearchtree.py on every run equals the hand model (induction on the fuel; the fuel K + 1 always suffices); the BST law, range and never-zero-probability restated on the generated descent. Example C02_gen_bst_nonvacuous runs the generated loop",
+    "C02_gen_alias_draw_with_u_is_model / C02_gen_alias_law": "wave 6 (TIE2): the regenerated _draw_with_u equals Z.of_nat (alias_draw ..) for every K, q, J and u >= 0 (the lemma carries 0 <= u because np.uint truncates and Qfloor floors); C02_alias_law (lengths p_k, draw = locate on the columns, index in [0,K), never a zero-probability state) restated on the generated draw run on the constructor model's tables. Example C02_gen_alias_nonvacuous",
+    "C02_inversion_frontier_nd": "wave 6, full for the factory's n-d grid with (nested) Szudzik, any d >= 2, any axis sizes > 0, origin not on the edge of the last axis, Boundary(): every index of the REAL deque dom_nd computes is an admissible index in [0, max_frontier_indices] (0 <= index because the projected state is not the origin; index <= dom_maxf by the max; in the box by C14_frontier_draw_factory), the deque is non-empty, position c projects to the first/last point of a line along the last axis: in the grid, never the origin",
+    "C02_inversion_frontier_nd_law": "wave 6, full: C02_inversion_frontier_law composed with the above -- any probability table >= 0, any _max_storage >= 1, any history, any u, any position c < len(deque): the state returned is in the grid and not the origin; u <= sigma: the admissible state of the right-closed step function (interval length = its probability); u > sigma: EXACTLY project(deque[c]), on the frontier. Example C02_inversion_frontier_nd_nonvacuous: the 5 x 5 deque (10 entries, 24 admissible indices), a 4 x 4 x 4 deque (32 entries), a history with storage 3 taking the frontier draw twice",
     "C02_inversion_frontier_zero_prob_refuted": "F-C02-13 on the faithful model: probabilities summing to 1 - 2^-52 with p(-3) = 0, u = 1 - 2^-53, position 1 -> state -3 (vm_compute witness); on the implementation the deficit comes from rounding rate/intensity (intensity 7)",
     "C02_inversion_zero_uniform_refuted / C02_bstadapted1d_zero_uniform_refuted": "vm_compute witnesses of F-C02-6 on the faithful models",
     "C02_inversion_overflow_orig / C02_inversion_overflow_repaired": "Examples: the historical witness of F-C02-7 = F-C14-6 on the ORIGINAL model (Model/InversionOrig.v) and the same instance on the repaired model (answers state 3 with storage 1, 2, 10^6)",
 }
-LEVEL_TEXT = ("Proof: 19 positive Coq theorems (closed under the global context, no axioms) state, for ALL probability vectors of any length "
+LEVEL_TEXT = ("Proof: 25 positive Coq theorems (closed under the global context, no axioms) state, for ALL probability vectors of any length "
               ">= 1 with zeros and ties, that BinarySearchTree, HuffmanTree, AliasMethod and TableMethod are step functions of the uniform "
               "whose intervals labelled k have total length exactly p_k (constructors total, indices in range, zero-probability states and, "
               "through the factory's vector and states map, the origin never returned); TableMethod also as the code consumes ONE 32-bit "
@@ -86,7 +93,7 @@ LEVEL_TEXT = ("Proof: 19 positive Coq theorems (closed under the global context,
               "model (np.random.choice = an explicit position c of the deque): the draw is taken iff u exceeds the sum sigma of the admissible "
               "probabilities (never for u <= 1 in exact arithmetic), for sigma <= 1 the sampler is the step function with one more interval "
               "(sigma, 1] labelled frontier[c], the deficit 1 - sigma goes to the frontier indices in proportion to their multiplicity, and on the "
-              "factory's 1-d grid the frontier states are the two end points (in the grid, never the origin); BinarySearchTreeAdapted1D is "
+              "factory's 1-d grid the frontier states are the two end points (in the grid, never the origin); (wave 6) on the factory's n-d grid (Szudzik, d >= 2) the REAL deque dom_nd computes holds admissible indices only, so every draw returns an in-grid non-origin state and, when u exceeds sigma, exactly project(deque[c]), an end point of a line of the box; (wave 6) the BinarySearchTree descent and AliasMethod._draw_with_u are REGENERATED from the source by py2coq on every run and proved equal to the hand models (the laws are restated on the generated definitions); BinarySearchTreeAdapted1D is "
               "the right-closed step function of the cell masses for any additive mass; the n-d BinarySearchTreeAdapted on the real bucket "
               "list of _pre_computation (cached axis vectors and axis-cycling bisection, which terminates) gives every non-origin cell of "
               "the grid exactly bm(cell), never the origin. History: the 1-d and n-d lru caches are proved to be harmless READ caches for any "
@@ -102,7 +109,7 @@ LEVEL_TEXT = ("Proof: 19 positive Coq theorems (closed under the global context,
               "vs single uniform with lowered storage, same array twice, two orders, float sums below 1 with the frontier choice scripted, every direct sampler "
               "built from ONE float64 ndarray that must stay bit-identical through constructors and draws). Float rounding for non-dyadic "
               "inputs is outside the theorems (the frontier theorem takes the rounded sum sigma as a parameter); the distribution of "
-              "np.random.choice over the positions of the deque is numpy's and is not modelled; n-d frontier deques are not tied to the theorem.")
+              "np.random.choice over the positions of the deque is numpy's and is not modelled; the 2-d frontier deque is tied exactly (order, max index, every scripted position), the 3-d one (Rosenberg-Strong) only by the oracle; the n-d tree is tied exactly in d = 2 and (wave 6) d = 3 on density tables with arbitrary dyadic cell masses.")
 LEVEL_NOTE = ("Trusted: Coq kernel + vm_compute; hand-written models (lists for arrays/deques, floor for np.uint, stable insertion sort for "
               "list.sort, bisect_left loop, cumsum/searchsorted on sorted arrays) tied by exact comparison on dyadic inputs; Q arithmetic "
               "stands for float arithmetic (exact on the dyadic inputs compared; non-dyadic inputs only by the oracle with tolerance 1e-9); "
@@ -1390,31 +1397,46 @@ def chain_2d(res, rng, groups, viol):
                 if method == SM.INVERSION and exact and rng.random() < 0.6:
                     for extra_u in (1.25, 1.0625):          # above the sum: exhaustion, random frontier state
                         seq.insert(rng.randrange(len(seq) + 1), extra_u)
-                outs, samplers = [], []
+                outs, samplers, rows2 = [], [], []
+                # wave 6: np.random.choice is an explicit input here too -- position cs[i] of the frontier deque for draw i (the
+                # same position in both orders: the output is a function of (u, c) only, also on the exhaustion path)
+                fr_len = len(s.state_manager.frontier_states_indices) if method == SM.INVERSION else 1
+                cs = [rng.randrange(fr_len) for _ in seq]
+                sums_to_one = sum(target.values()) == 1
                 for order in (list(range(len(seq))), rng.sample(range(len(seq)), len(seq))):
                     s2 = mk()[0].sampling
                     if M is not None:
                         s2._max_storage = M
                     f2 = entry(s2)
                     got = {}
-                    for i in order:
-                        got[i] = f2(seq[i])
-                        res.count(("hist-2d", name, copula_name, h, L, R, M, seq[i], len(got)), kind=f"{name} sequence")
-                        if seq[i] > 1.0:
-                            fr2 = {tuple(int(c_) for c_ in pz.project(ix)) for ix in s2.state_manager.frontier_states_indices}
-                            res.bump("inversion2d_exhaustion", "u above the sum")
-                            if got[i] not in fr2 or got[i] == (0, 0) or got[i] not in target:
-                                viol(f"{name}: a uniform above the sum of the probabilities does not give a frontier state of the grid",
-                                     u=seq[i], got=list(got[i]), **ctx)
-                        else:
-                            check_state(got[i], seq[i], {"max_storage": M})
+                    with ScriptedChoice() as ch2:
+                        for i in order:
+                            ch2.c, before = cs[i], ch2.calls
+                            got[i] = f2(seq[i])
+                            called = ch2.calls > before
+                            if not outs:
+                                rows2.append((seq[i], cs[i], called, got[i]))
+                            res.count(("hist-2d", name, copula_name, h, L, R, M, seq[i], len(got)), kind=f"{name} sequence")
+                            if method == SM.INVERSION and exact and sums_to_one and called != (seq[i] > 1.0):
+                                viol(f"{name}: the frontier draw is (not) taken although the uniform is (not) above the sum of the probabilities",
+                                     u=seq[i], got=list(got[i]), choice_called=called, **ctx)
+                            if seq[i] > 1.0:
+                                fr_idx2 = [int(ix) for ix in s2.state_manager.frontier_states_indices]
+                                want = tuple(int(c_) for c_ in pz.project(fr_idx2[cs[i]]))
+                                res.bump("inversion2d_exhaustion", "u above the sum")
+                                res.bump("inversion2d_frontier_choice", cs[i])
+                                if got[i] != want or got[i] == (0, 0) or got[i] not in target:
+                                    viol(f"{name}: a uniform above the sum of the probabilities does not give the chosen frontier state of the grid",
+                                         u=seq[i], got=list(got[i]), choice=cs[i], chosen_frontier_state=list(want), **ctx)
+                            else:
+                                check_state(got[i], seq[i], {"max_storage": M})
                     outs.append(got)
                     samplers.append(s2)
                 res.bump("inversion2d_max_storage" if method == SM.INVERSION else "bstadapted2d_sequences", M)
-                diff = [i for i in range(len(seq)) if outs[0][i] != outs[1][i] and seq[i] <= 1.0]
+                diff = [i for i in range(len(seq)) if outs[0][i] != outs[1][i]]
                 if diff:
                     i = diff[0]
-                    viol(f"{name}: the state returned for a uniform depends on the earlier draws", max_storage=M, sequence=seq, index=i,
+                    viol(f"{name}: the state returned for a uniform depends on the earlier draws", max_storage=M, sequence=seq, index=i, choices=cs,
                          first=list(outs[0][i]), second=list(outs[1][i]), **ctx)
                 ref = {i: (one(seq[i]) if seq[i] <= 1.0 else outs[0][i]) for i in range(len(seq))}
                 bad = [i for i in range(len(seq)) if outs[0][i] != ref[i]]
@@ -1444,13 +1466,17 @@ def chain_2d(res, rng, groups, viol):
                                      max_storage=M, order=order_b, u=u, batch=list(o), single=list(f5(u)), **ctx)
                                 break
                 if method == SM.INVERSION and exact:
-                    tab = lst([f"({zlit(a_)}, {zlit(b_)}, {qlit(pr)})" for (a_, b_), pr in sorted(target.items())])
-                    draws = lst([f"({qlit(seq[i])}, ({zlit(outs[0][i][0])}, {zlit(outs[0][i][1])}))" for i in range(len(seq))])
+                    # wave 6: Model/InversionFrontierNd.v -- states as lists, the deque (IN ORDER) and max_frontier_indices of the
+                    # implementation must be dom_nd's, every draw (u, c) must return exactly what inv_step_f returns
+                    zl = lambda st_: lst([zlit(int(v_)) for v_ in st_])
+                    tab = lst([f"({zl(st_)}, {qlit(pr)})" for st_, pr in sorted(target.items())])
+                    draws = lst([f"({qlit(u_)}, {zlit(c_)}, {'true' if cl_ else 'false'}, {zl(o_)})" for u_, c_, cl_, o_ in rows2])
                     sm = samplers[0].state_manager
-                    frl = lst([f"({zlit(int(c_[0]))}, {zlit(int(c_[1]))})" for c_ in sorted({tuple(int(v_) for v_ in pz.project(ix)) for ix in sm.frontier_states_indices})])
-                    g_inv2.append(f"({zlit(L)}, {zlit(R)}, {zlit(int(sm.max_frontier_indices))}, {tab}, {zlit(1_000_000 if M is None else M)}, "
-                                  f"{draws}, ({zlit(int(sm._last_projected_index))}, {zlit(int(sm._last_logged_index))}), {frl})")
-    groups.append(("inversion2d", "Z * Z * Z * list (Z * Z * Q) * Z * list (Q * (Z * Z)) * (Z * Z) * list (Z * Z)", "chk_inv2d", g_inv2))
+                    frl = lst([zlit(int(ix)) for ix in sm.frontier_states_indices])
+                    final_cum = lst([qlit(float(c_)) for c_ in samplers[0]._cumulative_probabilities])
+                    g_inv2.append(f"({lst([zlit(n), zlit(n)])}, {zlit(L)}, {zlit(int(sm.max_frontier_indices))}, {tab}, {zlit(1_000_000 if M is None else M)}, "
+                                  f"{draws}, {final_cum}, ({zlit(int(sm._last_projected_index))}, {zlit(int(sm._last_logged_index))}), {frl})")
+    groups.append(("inversion2d", "list Z * Z * Z * list (list Z * Q) * Z * list (Q * Z * bool * list Z) * list Q * (Z * Z) * list Z", "chk_invnd_f", g_inv2))
 
 
 # ----------------------------------------------------------------------------- n-d adapted tree: exact tie + wider oracle
@@ -1665,6 +1691,124 @@ def chain_nd_table(res, rng, groups, viol):
     groups.append(("ndbuckets", "nat * Z * Z * list (list (Z * Z)) * list bool", "chk_buckets", g_bk))
 
 
+# ----------------------------------------------------------------------------- wave 6: 3-d adapted tree on density tables, exact
+def build_table_chain_nd(h, L, R, mass, method, dim=3):
+    """dim-d chain on [-L*h, R*h]^dim whose Levy measure has a piecewise-constant density with the given cell masses
+    (harness/c01_table3.py TableN + its own Levy copula; cells straddling a coordinate plane are split at 0 so that every piece
+    lies in one closed orthant): every box mass is an exact dyadic float, mass in all octants / on the planes / on the axes."""
+    import itertools
+    import warnings
+    from c01_table3 import TableN, table_copula_model_nd
+    from rpylib.grid.spatial import CTMCGrid
+    from rpylib.process.markovchain.markovchainlevycopula import MarkovChainLevyCopula
+    hq = Fr(h)
+    axis = [k * hq for k in range(-L, R + 1)]
+    n = len(axis)
+
+    def bounds(k):
+        return (axis[max(0, k - 1)] + axis[k]) / 2, (axis[k] + axis[min(n - 1, k + 1)]) / 2
+    pieces = []
+    for cell, m in mass.items():
+        if m == 0:
+            continue
+        bs = [bounds(k) for k in cell]
+        vol = Fr(1)
+        for a, b in bs:
+            vol *= b - a
+        splits = [[a, b] if not (a < 0 < b) else [a, Fr(0), b] for a, b in bs]
+        for combo in itertools.product(*[list(zip(x, x[1:])) for x in splits]):
+            pieces.append(tuple(v for lo_hi in combo for v in lo_hi) + (m / vol,))
+    model = table_copula_model_nd(TableN(pieces, dim), strict=False)
+    grid = CTMCGrid(h=float(hq), origin_coordinate=L, axes=[np.array([float(x) for x in axis]) for _ in range(dim)])
+    with warnings.catch_warnings():
+        warnings.simplefilter("ignore")
+        proc = MarkovChainLevyCopula(model, grid, method)
+    return proc, grid
+
+
+def chain_3d_table(res, rng, groups, viol):
+    """BINARYSEARCHTREEADAPTED in d = 3 against Model/BstAdaptedNd.v, EXACTLY: chains built by the public factory on 3-d density
+    tables with arbitrary dyadic cell masses (all octants, coordinate planes, axes, zeros; 26 buckets, 0 / 6 / 12 of them -- depending on the shape -- served from
+    the cached axis vectors, the others by the axis-cycling bisection over 3 axes), centred and non-centred grids; uniforms = multiples
+    of the mass unit -/+ one ulp + random dyadics; one array call, single calls in reverse order, batch sample(); exact law."""
+    import itertools
+    from rpylib.distribution.sampling import SamplingMethod as SM
+    tier = res.tier
+    shapes = [(0.5, 1, 1), (0.5, 1, 2), (0.5, 2, 2)] if tier == "quick" else [(0.5, 1, 1), (0.5, 1, 2), (0.5, 2, 2), (0.5, 2, 1), (0.25, 3, 3), (0.5, 2, 3)]
+    g_nd, g_bk = [], []
+    name = "BINARYSEARCHTREEADAPTED-3d"
+    for (h, L, R) in shapes:
+        n = L + R + 1
+        for variant in ("generic", "sparse"):
+            tot = 1 << 8
+            cells = [c for c in itertools.product(range(n), repeat=3) if c != (L, L, L)]
+            ints = _composition(rng, tot, len(cells), zero_frac=0.0 if variant == "generic" else 0.6)
+            mass = {c: Fr(v, tot) for c, v in zip(cells, ints)}
+            ctx = dict(sampler=name, copula="table3", h=h, left=L, right=R,
+                       masses=[[c[0] - L, c[1] - L, c[2] - L, str(m)] for c, m in mass.items() if m])
+            try:
+                proc, grid = build_table_chain_nd(h, L, R, mass, SM.BINARYSEARCHTREEADAPTED)
+            except Exception as e:  # noqa
+                viol(f"factory raises {type(e).__name__} for a 3-d table-copula chain", error=str(e)[:200], **ctx)
+                continue
+            if Fr(float(proc.intensity_of_jumps)) != 1:
+                res.broke("3-d table chain intensity", f"{proc.intensity_of_jumps} != 1")
+                continue
+            s = proc.sampling
+            g_bk.append(_bucket_case(s, 3, n, L))
+            res.count(("buckets", "table3", 3, n, L, variant), kind="bucket classification (is_axis flags)")
+            res.bump("chain_3d_table", f"[-{L},{R}]^3 {variant}")
+            res.bump("chain_3d_table_cached_buckets", sum(1 for f_ in s._is_axis if f_))
+            target = {tuple(c_ - L for c_ in c): m for c, m in mass.items()}
+            us = {0.0, ulp_down(1.0)}
+            for k in range(1, tot):
+                b_ = k / tot
+                us |= {b_, ulp_down(b_), ulp_up(b_)}
+            us = pick(rng, sorted(us), 110 if tier == "quick" else 400) + [rng.randrange(0, 1 << 30) / (1 << 30) for _ in range(16)]
+            arr = np.array(us, dtype=float)
+            r1 = [tuple(int(x) for x in v) for v in s.sample_with_us(arr)]
+            if not np.array_equal(arr, np.array(us, dtype=float)):
+                viol(f"{name}: sample_with_us overwrites the caller's uniforms", uniforms=us[:8], **ctx)
+            singles = [tuple(int(x) for x in s.sample_with_us(np.array([u], dtype=float))[0]) for u in reversed(us)][::-1]
+            orig_u = np.random.uniform
+            np.random.uniform = _scripted_uniforms(us)
+            try:
+                batch = [tuple(int(x) for x in v) for v in s.sample(size=len(us))]
+            finally:
+                np.random.uniform = orig_u
+            outs = []
+            for u, st, st1, st2 in zip(us, r1, singles, batch):
+                res.count(("3d-table", h, L, R, variant, u), kind="BinarySearchTreeAdapted.sample_with_us (3-d table copula)")
+                if st1 != st or st2 != st:
+                    viol(f"{name}: the state for a uniform differs between one array call, single calls in another order and batch sample()",
+                         u=u, array_call=list(st), single=list(st1), batch=list(st2), **ctx)
+                    break
+                if st == (0, 0, 0) or st not in target:
+                    viol(f"{name} through the factory returns the origin or a state outside the grid", u=u, got=list(st), **ctx)
+                elif target[st] == 0 and u == 0.0:
+                    viol(f"{name}: the uniform 0.0 is sent to a state of probability zero", finding="F-C02-6", u=u, got=list(st),
+                         first_enumerated_state=[0, 0, -L], probability_of_got="0", **ctx)
+                elif target[st] == 0:
+                    viol(f"{name} through the factory returns a zero-probability state", u=u, got=list(st), **ctx)
+                outs.append((u, st))
+            # exact law: every u = k/tot - one ulp identifies the cell owning ((k-1)/tot, k/tot]; the count per cell must be its mass
+            owners = {}
+            for k in range(1, tot + 1):
+                st = tuple(int(x) for x in s.sample_with_us(np.array([ulp_down(k / tot)], dtype=float))[0])
+                owners[st] = owners.get(st, 0) + 1
+            res.count(("3d-table-law", h, L, R, variant), kind="oracle-law-BINARYSEARCHTREEADAPTED-3d-table")
+            badl = [st for st, pr in target.items() if Fr(owners.get(st, 0), tot) != pr] + [st for st in owners if st not in target]
+            if badl:
+                st = badl[0]
+                viol(f"{name}: total length of the uniforms sent to a state differs from mass(cell)/intensity",
+                     state=list(st), length=owners.get(st, 0) / tot, target=float(target.get(st, 0)), **ctx)
+            tab = lst([f"({lst([zlit(c_) for c_ in c])}, {qlit(m)})" for c, m in sorted(mass.items()) if m])
+            draws = lst([f"({qlit(u)}, {lst([zlit(c_) for c_ in st])})" for u, st in outs])
+            g_nd.append(f"(3%nat, {zlit(n)}, {zlit(L)}, {tab}, {draws})")
+    groups.append(("bstadapted3d", "nat * Z * Z * list (list Z * Q) * list (Q * list Z)", "chk_nd", g_nd))
+    groups.append(("ndbuckets3d", "nat * Z * Z * list (list (Z * Z)) * list bool", "chk_buckets", g_bk))
+
+
 def chain_nd_wide(res, rng, viol):
     """implementation-only oracle on wider n-d chains: Clayton copula in 2-d (tolerance), a 3-d independent-copula chain,
     larger grids in the thorough tier; INVERSION and BINARYSEARCHTREEADAPTED: law against mass(cell)/intensity of the
@@ -1758,7 +1902,7 @@ def chain_nd_wide(res, rng, viol):
 HEADER = r"""
 From Coq Require Import List ZArith QArith Qabs Bool.
 From RV Require Import Proofs.C02_Alias.
-From RV Require Import Base.QB Base.Corr Gen.GenPairing Model.Pairing Model.StepLaw Model.Bst Model.Alias Model.Huffman Model.Table Model.StatesManager Model.Inversion Model.BstAdapted Model.Factory Model.BstAdaptedNd Model.Stateful Model.Domain Model.InversionFrontier.
+From RV Require Import Base.QB Base.Corr Gen.GenPairing Model.Pairing Model.StepLaw Model.Bst Model.Alias Model.Huffman Model.Table Model.StatesManager Model.Inversion Model.BstAdapted Model.Factory Model.BstAdaptedNd Model.Stateful Model.Domain Model.InversionFrontier Model.InversionFrontierNd.
 Import ListNotations.
 Open Scope Q_scope.
 
@@ -1901,6 +2045,23 @@ Definition chk_inv2d (c : Z * Z * Z * list (Z * Z * Q) * Z * list (Q * (Z * Z)) 
       ok && zpair_eqb (i_sm st) final_sm
   end.
 
+(* wave 6 -- n-d INVERSION of the factory with the frontier deque INSIDE the model (Model/InversionFrontierNd.v): states are lists,
+   enumeration sznd_project (PairingToZd over Szudzik), is_outside = outside the box; the implementation's deque (in order) and
+   max_frontier_indices must be dom_nd's / dom_maxf's (Model/Domain.v), and every draw (u, scripted position c of np.random.choice,
+   choice called?, state) must be what inv_step_f / inv_uses_choice give; final cumulative sums and StatesManager state too *)
+Definition chk_invnd_f (c : list Z * Z * Z * list (list Z * Q) * Z * list (Q * Z * bool * list Z) * list Q * (Z * Z) * list Z) : bool :=
+  let '(sizes, o, F, tab, M, draws, final_cum, final_sm, fr) := c in
+  let proj := sznd_project (length sizes) in
+  let outside := outsidend sizes o in
+  let prob := lookupn tab in
+  zlist_eqb fr (frnd sizes o) && Z.eqb F (maxfnd sizes o) &&
+  match inv_init proj outside F prob with
+  | None => false
+  | Some st0 =>
+      let '(ok, st) := run_inv_f zl_eqb proj outside F prob M fr st0 draws in
+      ok && qlist_eqb (i_cum st) final_cum && zpair_eqb (i_sm st) final_sm
+  end.
+
 (* _pre_computation: the bucket list (itertools.product order) and which buckets are served from the cached axis vectors *)
 Definition chk_buckets (c : nat * Z * Z * list (list (Z * Z)) * list bool) : bool :=
   let '(dim, n, o, bks, flags) := c in
@@ -1932,6 +2093,7 @@ def correspond(res):
     chain_2d(res, rng, groups, viol)
     chain_nd_table(res, rng, groups, viol)
     chain_nd_wide(res, rng, viol)
+    chain_3d_table(res, rng, groups, viol)          # wave 6 (after the others: their random streams are unchanged)
 
     # ---------- Coq side: the models must compute exactly what the implementation returned ----------
     from concurrent.futures import ThreadPoolExecutor
